@@ -123,7 +123,10 @@ func (l *Lexer) Next() *Token {
 		}
 		return tok.setType(STRING_LIT).setLiteral(literal)
 	case 0:
-		return tok.setType(EOF)
+		if l.pos >= len(l.input) {
+			return tok.setType(EOF)
+		}
+		// A NUL character inside the input is ILLEGAL, not the end of input.
 	}
 	if isLetter(l.cur) {
 		literal := l.readIdent()
